@@ -41,6 +41,9 @@ pub const H_QC: u8 = 16;
 pub const H_QW0: u8 = 17;
 /// H_QP0..: units with one element that cannot be formatted (a non-ASCII string) among good ones
 pub const H_QP0: u8 = 24;
+/// H_QLA / H_QLV: a list as one data element between two others (ArrayVec not filled to capacity / Vec)
+pub const H_QLA: u8 = 27;
+pub const H_QLV: u8 = 28;
 pub const LONGW: &[u8] = b"ABCDEFGHIJKLMNOPQRST";
 
 pub static MANY: [Item; 300] = [Item::U8(7); 300];
@@ -62,6 +65,8 @@ pub fn framing_tree() -> TreeSpec {
         TreeSpec::leaf("QLQ", H_QLQ),
         TreeSpec::leaf("QVOLt", H_QV),
         TreeSpec::leaf("QCALc", H_QC),
+        TreeSpec::leaf("QLA", H_QLA),
+        TreeSpec::leaf("QLV", H_QLV),
         TreeSpec::leaf("QPA", H_QP0),
         TreeSpec::leaf("QPB", H_QP0 + 1),
         TreeSpec::leaf("QPC", H_QP0 + 2),
@@ -110,6 +115,8 @@ pub fn framing_plans(dev: &mut RigDev) {
     dev.plan[H_QP0 as usize] = Plan::resp(&[Item::I64(1), Item::Str(b"caf\xc3\xa9"), Item::I64(0)]);
     dev.plan[H_QP0 as usize + 1] = Plan::resp(&[Item::Str(b"\xff"), Item::I64(2)]);
     dev.plan[H_QP0 as usize + 2] = Plan::resp(&[Item::Header(b"HD"), Item::Str(b"\x80"), Item::I64(3), Item::I64(4)]);
+    dev.plan[H_QLA as usize] = Plan::resp(&[Item::Header(b"LIST"), Item::ListAv(&[1, 2]), Item::I64(7), Item::ListAv(&[5])]);
+    dev.plan[H_QLV as usize] = Plan::resp(&[Item::ListVec(&[3, 4, 5]), Item::I64(-1)]);
     dev.plan[H_QC as usize] = Plan::resp(&[Item::Header(b"CALCULATE"), Item::Header(b"X"), Item::I64(1)]);
     dev.plan[H_QL as usize] = Plan::resp(&[Item::I64(i64::MIN), Item::Str(b"\"\""), Item::Block(b"0123456789"), Item::F32(f32::NAN), Item::F64(f64::NEG_INFINITY)]);
 }
@@ -144,6 +151,7 @@ pub fn kinds(all: bool) -> Vec<Kind> {
             Kind { text: ":QSEM?", resp: Some("#13ab;"), needs_br: false, writes_nothing: false },
             Kind { text: ":QVOL?", resp: Some("VOLTAGE 7"), needs_br: false, writes_nothing: false },
             Kind { text: ":QCAL?", resp: Some("CALCULATE:X 1"), needs_br: false, writes_nothing: false },
+            Kind { text: ":QLA?", resp: Some("LIST 1,2,7,5"), needs_br: false, writes_nothing: false },
             Kind { text: ":QNL?", resp: Some("1,#14abc\n"), needs_br: false, writes_nothing: false },
             Kind { text: ":QLON?", resp: Some("-9223372036854775808,\"\"\"\"\"\",#2100123456789,9.91E+37,-9.9E+37"), needs_br: false, writes_nothing: false },
         ]);
@@ -249,6 +257,8 @@ pub fn enumerate(ks: &[Kind], max_units: usize, all_seps: bool) -> Vec<GenMsg> {
         ("QON?;:QMAN?;QON?".to_string(), format!("42;{};42\n", many_text())),
         (":QLQ?".to_string(), "\"a-rather-long-segment-before-the-quote\"\"x\",-300,\"Probe \"\"A\"\" fault;a-long-device-dependent-text\"\"q\"\n".to_string()),
         (":QNL?;EV".to_string(), "1,#14abc\n\n".to_string()),
+        (":QLV?".to_string(), "3,4,5,-1\n".to_string()),
+        ("QON?;:QLV?;:QLA?".to_string(), "42;3,4,5,-1;LIST 1,2,7,5\n".to_string()),
         (":QWA?".to_string(), "ABCDEFGHIJKLMNOPQRST:B 1,2,3\n".to_string()),
         (":QWB?".to_string(), "A:ABCDEFGHIJKLMNOPQRST 1,2,3\n".to_string()),
         (":QWC?".to_string(), "A:B ABCDEFGHIJKLMNOPQRST,2,3\n".to_string()),
